@@ -85,6 +85,11 @@ class TraceTable:
         return present
 
     def __getitem__(self, key: Any) -> Any:
+        pending = getattr(self, "_pending", None)
+        if pending is not None:
+            self._pending = None
+            if key in pending:
+                return pending[key]        # second half of dict(table): no new answer
         self.o.key(key)
         if self.o.decide(2) == 1:
             j, s = self.o.sentinel()
@@ -116,10 +121,35 @@ class TraceTable:
         self.o.key(key)
         self.o.op(Op("setitem", None, value=self.o.tag(value)))
 
+    # private copies: `dict(table)`, `table.copy()`, `{**table}` -- a snapshot of the one key
+    def _snapshot(self) -> Dict[Any, Any]:
+        if not self.o.keys:
+            raise HarnessError("the table is copied before the key is known: outside the single-key model")
+        key = self.o.keys[0]
+        if self.o.decide(2) == 1:
+            j, s = self.o.sentinel()
+            self.o.op(Op("snapshot", "present", reg=j), depth=3)
+            return {key: s}
+        self.o.op(Op("snapshot", "absent"), depth=3)
+        return {}
+
+    def copy(self) -> Dict[Any, Any]:
+        return self._snapshot()
+
+    def keys(self) -> Any:
+        self._pending = self._snapshot()
+        return list(self._pending)
+
+    def __iter__(self) -> Any:
+        return iter(self.keys())
+
+    def items(self) -> Any:
+        return list(self._snapshot().items())
+
     def _unmodelled(self, *a: Any, **k: Any) -> Any:
         raise HarnessError("the constructor uses a table operation the trace model has no semantics for")
 
-    __delitem__ = pop = popitem = clear = update = values = items = keys = __iter__ = __len__ = _unmodelled
+    __delitem__ = pop = popitem = clear = update = values = __len__ = _unmodelled
 
 
 class Extraction:
@@ -185,9 +215,9 @@ class Extraction:
         except Exception:
             return False
 
-    def op(self, op: Op) -> None:
+    def op(self, op: Op, depth: int = 2) -> None:
         # attribute the operation to the innermost library frame that is executing a line
-        f = sys._getframe(2)
+        f = sys._getframe(depth)
         stack = []
         while f is not None:
             if f.f_code.co_filename.startswith(self.files):
@@ -201,7 +231,24 @@ class Extraction:
         self.pos = 0
         self.events, self.ops_at, self.sentinels, self.keys = [], [], [], []
 
+        def published() -> None:
+            """`cls._known = <another table>`: the class attribute was rebound during the step that
+            just ended; what the new table holds for the key becomes the shared entry."""
+            cur = self.cls.__dict__["_known"]
+            if cur is table:
+                return
+            key = self.keys[0] if self.keys else None
+            try:
+                val = cur.get(key) if key is not None else None
+            except Exception:
+                raise HarnessError("the table was replaced by an object the model cannot read")
+            self.ops_at.append((len(self.events) - 1, Op("publish", None, value=None if val is None else self.tag(val))))
+            self.stacks.append(tuple(c for c, _ in self.events[-1:]))
+            type.__setattr__(self.cls, "_known", table)
+
         def local(frame: Any, event: str, arg: Any) -> Any:
+            if event in ("line", "return"):
+                published()
             if event == "line":
                 self.events.append((frame.f_code, frame.f_lineno))
             return local
@@ -212,7 +259,8 @@ class Extraction:
             return None
 
         saved = self.cls.__dict__["_known"]
-        type.__setattr__(self.cls, "_known", TraceTable(self))
+        table = TraceTable(self)
+        type.__setattr__(self.cls, "_known", table)
         old = sys.gettrace()
         sys.settrace(glob)
         result: Any = None
@@ -388,7 +436,9 @@ def search(traces: List[Trace], threads: int, timeout_ms: int = 120000) -> Dict[
                     regs_now = list(reg[t][k])
                     conds = []
                     for o in st.ops:
-                        if o.kind in ("contains", "getitem", "get", "sd_read"):
+                        if o.kind == "publish":
+                            cur = z3.IntVal(0) if o.value is None else val(o.value, t, k, regs_now)
+                        elif o.kind in ("contains", "getitem", "get", "sd_read", "snapshot"):
                             if o.outcome == "present":
                                 conds.append(cur != 0)
                                 if o.reg is not None:
